@@ -195,6 +195,8 @@ Lemma kind_safe_DT : kind_safe KDT.
 Proof. intros strict ml s x H. cbn in *. pose proof (DT_only_valueerror _ _ H). subst. left. split; [reflexivity|exact H]. Qed.
 Lemma kind_safe_TM : kind_safe KTM.
 Proof. intros strict ml s x H. cbn in *. pose proof (TM_only_valueerror _ _ H). subst. left. split; [reflexivity|exact H]. Qed.
+Lemma kind_safe_DTM : kind_safe KDTM.
+Proof. intros strict ml s x H. cbn in *. pose proof (DTM_only_valueerror _ _ H). subst. left. split; [reflexivity|exact H]. Qed.
 Lemma kind_safe_NM : kind_safe KNM.
 Proof.
   intros strict ml s x H. cbn in *. pose proof (impl_NM_levels ml s) as L. destruct strict.
@@ -271,4 +273,303 @@ Proof.
       * destruct L as [L|L]; congruence.
       * destruct L as [_ L]. congruence.
   - destruct x; discriminate.
+Qed.
+
+(* ------------------------------------------------------------------ *)
+(* NM                                                                   *)
+
+(* the characters of the HL7 numeric grammar *)
+Definition nm_clean (c : byte) : bool := is_digit c || is_c c_dot c || is_c c_plus c || is_c c_minus c.
+
+Lemma clean_plain : forall c, implb (nm_clean c)
+  (negb (is_space c) && negb (is_c c_us c) && negb (is_e c) && beqb (blower c) c &&
+   negb (beqb "i"%byte c) && negb (beqb "n"%byte c) && negb (beqb "s"%byte c) &&
+   negb (beqb c "i"%byte) && negb (beqb c "n"%byte) && negb (beqb c "s"%byte)) = true.
+Proof. brute1. Qed.
+
+Lemma clean_facts c : nm_clean c = true ->
+  is_space c = false /\ is_c c_us c = false /\ is_e c = false /\ blower c = c /\
+  beqb "i"%byte c = false /\ beqb "n"%byte c = false /\ beqb "s"%byte c = false /\
+  beqb c "i"%byte = false /\ beqb c "n"%byte = false /\ beqb c "s"%byte = false.
+Proof.
+  intros H. pose proof (implb_true _ _ (clean_plain c) H) as F.
+  repeat (apply andb_prop in F; destruct F as [F ?]).
+  repeat match goal with H : negb _ = true |- _ => apply negb_true_iff in H end.
+  repeat split; auto. now apply beqb_eq.
+Qed.
+
+Lemma split_on_none (p : byte -> bool) t : forallb (fun c => negb (p c)) t = true -> split_on p t = (t, None).
+Proof.
+  induction t as [|c t IH]; [reflexivity|]. cbn. intros H. apply andb_prop in H. destruct H as [Hc Ht].
+  apply negb_true_iff in Hc. now rewrite Hc, (IH Ht).
+Qed.
+
+Lemma lower_id t : forallb (fun c => beqb (blower c) c) t = true -> lower t = t.
+Proof.
+  unfold lower. induction t as [|c t IH]; [reflexivity|]. cbn. intros H. apply andb_prop in H. destruct H as [Hc Ht].
+  apply beqb_eq in Hc. now rewrite Hc, (IH Ht).
+Qed.
+
+Definition parsed (s : str) : bool := match decimal_parse s with Some _ => true | None => false end.
+Definition nm_sign_drop (s : str) : str :=
+  match s with c :: r => if is_c c_plus c || is_c c_minus c then r else s | [] => s end.
+
+Lemma take_sign_drop s : snd (take_sign s) = nm_sign_drop s.
+Proof.
+  destruct s as [|c r]; [reflexivity|]. cbn. destruct (is_c c_minus c) eqn:M, (is_c c_plus c) eqn:P; try reflexivity.
+Qed.
+
+Lemma clean_all t : forallb nm_clean t = true -> forall c, In c t -> nm_clean c = true.
+Proof. intros H. now rewrite forallb_forall in H. Qed.
+
+(* on text made of digits, point and signs only, Decimal() accepts exactly the HL7 numbers *)
+Theorem nm_clean_equiv s : forallb nm_clean s = true -> parsed s = spec_NM s.
+Proof.
+  intros Hc. pose proof (clean_all s Hc) as Hall. unfold parsed, decimal_parse.
+  unfold strip. rewrite strip_by_id.
+  2:{ apply forallb_forall. intros c Hi. destruct (clean_facts c (Hall c Hi)) as [E _]. cbv beta.
+      apply negb_true_iff. exact E. }
+  rewrite filter_id.
+  2:{ apply forallb_forall. intros c Hi. destruct (clean_facts c (Hall c Hi)) as [_ [E _]]. cbv beta.
+      apply negb_true_iff. exact E. }
+  destruct (take_sign s) as [neg t] eqn:Es.
+  assert (Ht : t = nm_sign_drop s) by (rewrite <- take_sign_drop, Es; reflexivity).
+  assert (Htc : forall c, In c t -> nm_clean c = true).
+  { intros c Hi. apply Hall. rewrite Ht in Hi. destruct s as [|x r]; [exact Hi|]. cbn in Hi.
+    destruct (is_c c_plus x || is_c c_minus x); [now right|exact Hi]. }
+  rewrite lower_id.
+  2:{ apply forallb_forall. intros c Hi. destruct (clean_facts c (Htc c Hi)) as [_ [_ [_ [E _]]]]. rewrite E. apply beqb_refl. }
+  assert (streqb t (unbs "inf") = false /\ streqb t (unbs "infinity") = false /\
+          bstarts (unbs "nan") t = false /\ bstarts (unbs "snan") t = false) as [E1 [E2 [E3 E4]]].
+  { destruct t as [|c r]; [repeat split; reflexivity|].
+    destruct (clean_facts c (Htc c (or_introl eq_refl))) as [_ [_ [_ [_ [F1 [F2 [F3 [F4 [F5 F6]]]]]]]]].
+    unfold streqb, bstarts. cbn [unbs leqb starts_with]. now rewrite F4, F2, F3. }
+  rewrite E1, E2, E3, E4. cbn [orb andb].
+  rewrite split_on_none.
+  2:{ apply forallb_forall. intros c Hi. destruct (clean_facts c (Htc c Hi)) as [_ [_ [E _]]]. cbv beta.
+      apply negb_true_iff. exact E. }
+  cbn [exponent_of]. unfold spec_NM. fold (nm_sign_drop s). rewrite <- Ht.
+  destruct (split_on (is_c c_dot) t) as [ip [fp|]].
+  - destruct (all_dig ip && all_dig fp && negb (nilb ip && nilb fp)); reflexivity.
+  - cbn [all_dig forallb nilb]. rewrite !andb_true_r.
+    destruct (all_dig ip), (nilb ip); reflexivity.
+Qed.
+
+Lemma split_on_spec (p : byte -> bool) t : forall a b, split_on p t = (a, b) ->
+  match b with
+  | Some r => exists c, p c = true /\ t = a ++ c :: r
+  | None => t = a
+  end /\ forallb (fun c => negb (p c)) a = true.
+Proof.
+  induction t as [|c t IH]; intros a b H.
+  - cbn in H. injection H as <- <-. auto.
+  - cbn in H. destruct (p c) eqn:Pc.
+    + injection H as <- <-. split; [exists c; auto|reflexivity].
+    + destruct (split_on p t) as [a' b'] eqn:E. injection H as <- <-. destruct (IH _ _ eq_refl) as [H1 H2]. split.
+      * destruct b' as [r|]; [destruct H1 as [x [Hx ->]]; exists x; auto|now subst].
+      * cbn. now rewrite Pc, H2.
+Qed.
+
+Lemma all_dig_clean t : all_dig t = true -> forallb nm_clean t = true.
+Proof. apply forallb_impl. intros c H. unfold nm_clean. now rewrite H. Qed.
+
+Lemma spec_NM_clean s : spec_NM s = true -> forallb nm_clean s = true.
+Proof.
+  unfold spec_NM. fold (nm_sign_drop s). intros H.
+  assert (Ht : forallb nm_clean (nm_sign_drop s) = true).
+  { destruct (split_on (is_c c_dot) (nm_sign_drop s)) as [ip fo] eqn:E.
+    destruct (split_on_spec _ _ _ _ E) as [Hs _]. destruct fo as [fp|].
+    - destruct Hs as [c [Hc ->]]. apply andb_prop in H. destruct H as [H _]. apply andb_prop in H. destruct H as [H1 H2].
+      rewrite forallb_app. cbn [forallb]. rewrite (all_dig_clean _ H1), (all_dig_clean _ H2).
+      unfold nm_clean at 1. rewrite Hc. cbn. now rewrite orb_true_r.
+    - rewrite Hs. apply andb_prop in H. destruct H as [_ H]. now apply all_dig_clean. }
+  destruct s as [|c r]; [reflexivity|]. cbn [nm_sign_drop] in Ht.
+  destruct (is_c c_plus c || is_c c_minus c) eqn:Sg; [|exact Ht].
+  cbn [forallb]. rewrite Ht, andb_true_r. unfold nm_clean. apply orb_prop in Sg. destruct Sg as [->| ->]; cbn;
+    now rewrite ?orb_true_r.
+Qed.
+
+Theorem nm_complete s : spec_NM s = true -> parsed s = true.
+Proof. intros H. now rewrite (nm_clean_equiv s (spec_NM_clean s H)). Qed.
+
+Theorem nm_sound s : parsed s = true -> spec_NM s = true \/ existsb (fun c => negb (nm_clean c)) s = true.
+Proof.
+  intros H. destruct (forallb nm_clean s) eqn:E.
+  - left. now rewrite <- (nm_clean_equiv s E).
+  - right. clear H. induction s as [|c s IH]; [discriminate|]. cbn in *. destruct (nm_clean c); cbn in *; auto.
+Qed.
+
+(* ---- str(Decimal(s)) for a plain decimal ---- *)
+
+Lemma decimal_parse_clean s : forallb nm_clean s = true ->
+  decimal_parse s =
+  match split_on (is_c c_dot) (snd (take_sign s)) with
+  | (ip, fo) =>
+      let fp := match fo with Some x => x | None => [] end in
+      if all_dig ip && all_dig fp && negb (nilb ip && nilb fp)
+      then Some (DFin (fst (take_sign s)) (canon_digits (ip ++ fp)) (0 - Z.of_nat (length fp))%Z) else None
+  end.
+Proof.
+  intros Hc. pose proof (clean_all s Hc) as Hall. unfold decimal_parse.
+  unfold strip. rewrite strip_by_id.
+  2:{ apply forallb_forall. intros c Hi. destruct (clean_facts c (Hall c Hi)) as [E _]. cbv beta.
+      apply negb_true_iff. exact E. }
+  rewrite filter_id.
+  2:{ apply forallb_forall. intros c Hi. destruct (clean_facts c (Hall c Hi)) as [_ [E _]]. cbv beta.
+      apply negb_true_iff. exact E. }
+  destruct (take_sign s) as [neg t] eqn:Es. cbn [fst snd].
+  assert (Ht : t = nm_sign_drop s) by (rewrite <- take_sign_drop, Es; reflexivity).
+  assert (Htc : forall c, In c t -> nm_clean c = true).
+  { intros c Hi. apply Hall. rewrite Ht in Hi. destruct s as [|x r]; [exact Hi|]. cbn in Hi.
+    destruct (is_c c_plus x || is_c c_minus x); [now right|exact Hi]. }
+  rewrite lower_id.
+  2:{ apply forallb_forall. intros c Hi. destruct (clean_facts c (Htc c Hi)) as [_ [_ [_ [E _]]]]. rewrite E. apply beqb_refl. }
+  assert (streqb t (unbs "inf") = false /\ streqb t (unbs "infinity") = false /\
+          bstarts (unbs "nan") t = false /\ bstarts (unbs "snan") t = false) as [E1 [E2 [E3 E4]]].
+  { destruct t as [|c r]; [repeat split; reflexivity|].
+    destruct (clean_facts c (Htc c (or_introl eq_refl))) as [_ [_ [_ [_ [F1 [F2 [F3 [F4 [F5 F6]]]]]]]]].
+    unfold streqb, bstarts. cbn [unbs leqb starts_with]. now rewrite F4, F2, F3. }
+  rewrite E1, E2, E3, E4. cbn [orb andb].
+  rewrite split_on_none.
+  2:{ apply forallb_forall. intros c Hi. destruct (clean_facts c (Htc c Hi)) as [_ [_ [E _]]]. cbv beta.
+      apply negb_true_iff. exact E. }
+  cbn [exponent_of]. destruct (split_on (is_c c_dot) t) as [ip fo]. reflexivity.
+Qed.
+
+Lemma lstrip0_len s : length (lstrip0 s) <= length s.
+Proof. unfold lstrip0. induction s as [|c s IH]; [cbn; lia|]. cbn. destruct (is_c c_0 c); cbn; lia. Qed.
+
+Lemma lstrip0_split s : s = repeat c_0 (length s - length (lstrip0 s)) ++ lstrip0 s.
+Proof.
+  induction s as [|c s IH]; [reflexivity|]. unfold lstrip0 in *. cbn [lstrip_by].
+  destruct (is_c c_0 c) eqn:E.
+  - apply beqb_eq in E. subst c. pose proof (lstrip0_len s) as L. unfold lstrip0 in L.
+    replace (length (c_0 :: s) - length (lstrip_by (is_c c_0) s)) with (S (length s - length (lstrip_by (is_c c_0) s)))
+      by (cbn [length]; lia).
+    cbn [repeat app]. f_equal. exact IH.
+  - rewrite Nat.sub_diag. reflexivity.
+Qed.
+
+Lemma repeat_snoc {A} (x : A) n : repeat x n ++ [x] = repeat x (S n).
+Proof. induction n as [|n IH]; [reflexivity|]. cbn. f_equal. exact IH. Qed.
+
+Lemma no_lead0_cases ip : all_dig ip = true -> no_lead0 ip = true ->
+  ip = [c_0] \/ exists c r, ip = c :: r /\ is_c c_0 c = false.
+Proof.
+  intros Hd Hn. destruct ip as [|c [|d r]]; [discriminate| |].
+  - destruct (is_c c_0 c) eqn:E; [left; apply beqb_eq in E; now subst|right; eauto].
+  - right. cbn in Hn. apply negb_true_iff in Hn. eauto.
+Qed.
+
+Definition opt_frac (fo : option str) : str := match fo with Some fp => c_dot :: fp | None => [] end.
+
+(* the text of a plain, not too small decimal comes back unchanged *)
+Lemma decimal_str_plain neg ip fo :
+  all_dig ip = true -> no_lead0 ip = true ->
+  match fo with Some fp => all_dig fp = true /\ fp <> [] | None => True end ->
+  (match fo with
+   | Some fp => streqb ip [c_0] &&
+                (if nilb (lstrip0 fp) then 7 <=? length fp else 6 <=? length fp - length (lstrip0 fp))
+   | None => false end) = false ->
+  let fp := match fo with Some x => x | None => [] end in
+  decimal_str (DFin neg (canon_digits (ip ++ fp)) (0 - Z.of_nat (length fp))%Z) =
+  (if neg then [c_minus] else []) ++ ip ++ opt_frac fo.
+Proof.
+  intros Hd Hn Hf Hsm fp. unfold decimal_str. f_equal.
+  assert (Hip : ip <> []) by (destruct ip; [discriminate|discriminate]).
+  destruct fo as [f|]; subst fp.
+  - destruct Hf as [Hfd Hfn]. cbn [opt_frac].
+    assert (Lf : 1 <= length f) by (destruct f; [congruence|cbn; lia]).
+    destruct (no_lead0_cases ip Hd Hn) as [->|[c [r [-> Hc]]]].
+    + (* 0.fff *)
+      rewrite streqb_refl in Hsm. cbn [andb] in Hsm.
+      change (canon_digits ([c_0] ++ f)) with (canon_digits f).
+      unfold canon_digits. pose proof (lstrip0_split f) as Sp. pose proof (lstrip0_len f) as Ll.
+      destruct (lstrip0 f) as [|g0 g] eqn:G.
+      * (* all zeros *)
+        cbn [nilb] in Hsm. apply Nat.leb_gt in Hsm. cbn [length] in *. rewrite app_nil_r, Nat.sub_0_r in Sp.
+        change (Z.of_nat 1) with 1%Z.
+        destruct (Z.leb_spec (0 - Z.of_nat (length f)) 0); [|lia].
+        destruct (Z.ltb_spec (-6) (0 - Z.of_nat (length f) + 1)); [|lia]. cbn [andb].
+        destruct (Z.leb_spec (0 - Z.of_nat (length f) + 1) 0); [|lia].
+        rewrite Z.eqb_refl, app_nil_r.
+        replace (Z.to_nat (- (0 - Z.of_nat (length f) + 1))) with (length f - 1) by lia.
+        unfold zeros. cbn [app]. f_equal. rewrite repeat_snoc. replace (S (length f - 1)) with (length f) by lia.
+        now rewrite <- Sp.
+      * cbn [nilb] in Hsm. apply Nat.leb_gt in Hsm. set (gg := g0 :: g) in *.
+        assert (Lg : 1 <= length gg) by (cbn; lia).
+        destruct (Z.leb_spec (0 - Z.of_nat (length f)) 0); [|lia].
+        destruct (Z.ltb_spec (-6) (0 - Z.of_nat (length f) + Z.of_nat (length gg))); [|lia]. cbn [andb].
+        destruct (Z.leb_spec (0 - Z.of_nat (length f) + Z.of_nat (length gg)) 0); [|lia].
+        rewrite Z.eqb_refl, app_nil_r.
+        replace (Z.to_nat (- (0 - Z.of_nat (length f) + Z.of_nat (length gg)))) with (length f - length gg) by lia.
+        unfold zeros. cbn [app]. f_equal. now rewrite <- Sp.
+    + (* d....fff with a non-zero first digit *)
+      clear Hsm.
+      assert (canon_digits ((c :: r) ++ f) = (c :: r) ++ f) as ->.
+      { unfold canon_digits, lstrip0. cbn [app lstrip_by]. now rewrite Hc. }
+      set (ip := c :: r) in *. rewrite app_length, Nat2Z.inj_add.
+      assert (Li : 1 <= length ip) by (cbn; lia).
+      destruct (Z.leb_spec (0 - Z.of_nat (length f)) 0); [|lia].
+      replace (0 - Z.of_nat (length f) + (Z.of_nat (length ip) + Z.of_nat (length f)))%Z with (Z.of_nat (length ip)) by lia.
+      destruct (Z.ltb_spec (-6) (Z.of_nat (length ip))); [|lia]. cbn [andb].
+      destruct (Z.leb_spec (Z.of_nat (length ip)) 0); [lia|].
+      destruct (Z.leb_spec (Z.of_nat (length ip) + Z.of_nat (length f)) (Z.of_nat (length ip))); [lia|].
+      rewrite Z.eqb_refl, app_nil_r, Nat2Z.id. unfold take, drop.
+      rewrite firstn_app, Nat.sub_diag, firstn_all, skipn_app, Nat.sub_diag, skipn_all. cbn [firstn skipn app].
+      now rewrite app_nil_r.
+  - (* an integer *)
+    cbn [opt_frac length]. rewrite !app_nil_r.
+    assert (canon_digits ip = ip) as ->.
+    { apply canon_plain. unfold plain_SI, spec_SI. rewrite Hd, Hn. destruct ip; [congruence|reflexivity]. }
+    assert (Li : 1 <= length ip) by (destruct ip; [congruence|cbn; lia]).
+    change (0 - Z.of_nat 0)%Z with 0%Z. rewrite Z.add_0_l.
+    destruct (Z.leb_spec 0 0); [|lia]. destruct (Z.ltb_spec (-6) (Z.of_nat (length ip))); [|lia]. cbn [andb].
+    destruct (Z.leb_spec (Z.of_nat (length ip)) 0); [lia|].
+    rewrite Z.leb_refl, Z.eqb_refl, Z.sub_diag. cbn [Z.to_nat zeros repeat]. now rewrite !app_nil_r.
+Qed.
+
+Theorem roundtrip_NM_plain strict ml s e :
+  plain_NM s = true -> nm_small s = false -> impl_NM strict ml s = Ok e -> e = s.
+Proof.
+  unfold plain_NM, nm_small. intros Hp Hsm Hi.
+  set (t := match s with c :: r => if is_c c_minus c then r else s | [] => s end) in *.
+  destruct (split_on (is_c c_dot) t) as [ip fo] eqn:Esp.
+  destruct (split_on_spec _ _ _ _ Esp) as [Ht _].
+  assert (Hparts : negb (nilb ip) = true /\ all_dig ip = true /\ no_lead0 ip = true /\
+                   match fo with Some fp => all_dig fp = true /\ fp <> [] | None => True end).
+  { destruct fo as [fp|]; boolprop; repeat split; auto.
+    - destruct (nilb ip); [discriminate|reflexivity].
+    - destruct fp; [discriminate|discriminate].
+    - destruct (nilb ip); [discriminate|reflexivity]. }
+  destruct Hparts as [Hne [Hd [Hn Hf]]].
+  assert (Htt : t = ip ++ opt_frac fo).
+  { destruct fo as [fp|]; [|now rewrite Ht, app_nil_r]. destruct Ht as [c [Hc ->]]. apply beqb_eq in Hc. now subst. }
+  assert (Hic : ip <> []) by (destruct ip; [discriminate|discriminate]).
+  (* the sign *)
+  assert (Hsg : exists neg, take_sign s = (neg, t) /\ s = (if neg then [c_minus] else []) ++ t).
+  { destruct s as [|c r]; [exists false; subst t; auto|]. subst t. destruct (is_c c_minus c) eqn:M.
+    - exists true. cbn. rewrite M. apply beqb_eq in M. subst c. auto.
+    - exists false. cbn. rewrite M. split; [|reflexivity].
+      assert (Hc : is_digit c = true).
+      { destruct ip as [|i0 ip']; [congruence|]. cbn in Htt. injection Htt as -> _. cbn in Hd. apply andb_prop in Hd. tauto. }
+      destruct (digit_facts c Hc) as [_ [_ [-> _]]]. reflexivity. }
+  destruct Hsg as [neg [Hts Hs]].
+  assert (Hcl : forallb nm_clean s = true).
+  { rewrite Hs, Htt, !forallb_app, (all_dig_clean _ Hd). cbn [andb].
+    assert (forallb nm_clean (opt_frac fo) = true) as ->.
+    { destruct fo as [fp|]; [|reflexivity]. destruct Hf as [Hfd _]. cbn [opt_frac forallb].
+      rewrite (all_dig_clean _ Hfd). reflexivity. }
+    destruct neg; reflexivity. }
+  unfold impl_NM in Hi. destruct (nilb s) eqn:Ens.
+  { destruct s; [|discriminate]. destruct neg; cbn in Hs; [discriminate|]. rewrite <- Hs in Htt. symmetry in Htt.
+    apply app_eq_nil in Htt. destruct Htt as [E _]. congruence. }
+  rewrite (decimal_parse_clean s Hcl), Hts in Hi. cbn [fst snd] in Hi. rewrite Esp in Hi. cbv zeta in Hi.
+  rewrite Hd in Hi.
+  assert (all_dig (match fo with Some x => x | None => [] end) = true) as Hfd.
+  { destruct fo as [fp|]; [tauto|reflexivity]. }
+  rewrite Hfd in Hi. assert (nilb ip = false) as Hnil by (destruct ip; [congruence|reflexivity]).
+  rewrite Hnil in Hi. cbn [andb negb] in Hi.
+  rewrite (decimal_str_plain neg ip fo Hd Hn Hf Hsm) in Hi.
+  destruct (strict && too_long ml _); [discriminate|]. apply Ok_inj in Hi. rewrite <- Hi, Hs, Htt. reflexivity.
 Qed.
